@@ -240,9 +240,11 @@ def cases(tier, seed):
             for mode in ("lowest", "uppest"):
                 for k in boundary_neigs(s, mode, 0.0):
                     for (m, b, d) in grid:
-                        for opkind in ("dense", "mfree"):
-                            # svd builds A^H A: a MatrixLinearOperator for dense, a product operator otherwise
-                            if not _combo_ok(thorough, m, b, opkind, 5 if (b == "default" and r <= 5) else 6):
+                        for opkind in ("dense", "mfree", "mfree_mv"):
+                            # svd builds A^H A: a MatrixLinearOperator for dense, a product operator otherwise;
+                            # mfree_mv implements _mv only (A^H through the adjoint trick of LinearOperator)
+                            if not _combo_ok(thorough, m, b, "mfree" if opkind == "mfree_mv" else opkind,
+                                             5 if (b == "default" and r <= 5) else 6):
                                 continue
                             for param in ("P1", "P2"):
                                 for order in (1, 2):
